@@ -16,6 +16,7 @@ RULE = ("one case = (method, dtype, sign of h, state shape, program seed, call h
         "non-trivial = >=1 accepted step; distinct by (method,dtype,sign,shape,seed,history)")
 ASSUMPTIONS = ["explicit threshold 64*eps*(1+sum|a_ij|)*(1+max|k|)*(1+L|h|); implicit threshold 4*desired_tol + rounding, "
                "desired_tol recomputed from the inputs exactly as the library's step() does"]
+RULE += " Strata added in the fourth seeding round: Mixed-scale states (trace components 1e-18..1e-24) with the increment identity judged component by component; stiff single calls under the library's own controller with a small solution and rtol >> atol."
 FLOORS = {"quick": {"accepted_steps": 300, "stage_equations_checked": 1500, "newton_failure_then_retry": 1, "second_calls": 60, "insitu_steps": 300, "stiff_reduced_precision_steps": 15, "increment_components_checked_mixed_scale": 80, "stiff_small_solution_steps": 20},
           "thorough": {"accepted_steps": 3000, "stage_equations_checked": 15000, "newton_failure_then_retry": 5, "second_calls": 600, "insitu_steps": 3000, "stiff_reduced_precision_steps": 120, "increment_components_checked_mixed_scale": 320, "stiff_small_solution_steps": 120}}
 K_EXPL = 64.0
